@@ -4,7 +4,7 @@ package main
 //
 // Case line:
 //   vsig <ver 0|2> <idx> <TX> <nin> { <prevtxid> <previndex> <hasNonWit> [TX] <hasWit> [script value]
-//        <redeem> <witscript> <nsigs> { <present> [<pub> <sig>] } }
+//        <redeem> <witscript> <sighashtype> <nsigs> { <present> [<pub> <sig>] } }
 //        <npriv> { <pub> <privkey> }
 //        <nkeys> { <pub> <ok> <compressed> <hash160(pub)> } <nder> { <der> <ok> }
 //        <ndig> { <algo 0|1> <inidx> <script> <amount> <ht> <digest> } <nver> { <compressed> <digest> <der> }
@@ -44,6 +44,7 @@ type vsIn struct {
 	wit       *transaction.TxOutput
 	redeem    []byte // nil-able
 	witscript []byte // nil-able
+	sighash   uint32 // PInput.SighashType / Input.SigHashType (not read by the validator)
 	sigs      []*vsSig
 }
 
@@ -107,6 +108,7 @@ func readVs(t *Toks) *vsCase {
 		}
 		in.redeem = t.OptHex()
 		in.witscript = t.OptHex()
+		in.sighash = uint32(t.U64())
 		ns := t.Int()
 		for j := 0; j < ns; j++ {
 			s := &vsSig{}
@@ -174,6 +176,7 @@ func (c *vsCase) writePacket(b *sb) {
 		}
 		b.add(optHex(in.redeem))
 		b.add(optHex(in.witscript))
+		b.addn(uint64(in.sighash))
 		b.addn(uint64(len(in.sigs)))
 		for _, s := range in.sigs {
 			if s.present {
@@ -232,6 +235,7 @@ func (c *vsCase) buildV0() *pset.Pset {
 			WitnessUtxo:    in.wit,
 			RedeemScript:   in.redeem,
 			WitnessScript:  in.witscript,
+			SighashType:    txscript.SigHashType(in.sighash),
 		}
 		for _, s := range in.sigs {
 			if !s.present {
@@ -264,6 +268,7 @@ func (c *vsCase) buildV2() *psetv2.Pset {
 			WitnessScript:   in.witscript,
 			PreviousTxid:    in.prevTxid,
 			PreviousTxIndex: in.prevIndex,
+			SigHashType:     txscript.SigHashType(in.sighash),
 		}
 		if k < len(c.tx.Inputs) {
 			vi.Sequence = c.tx.Inputs[k].Sequence
@@ -557,7 +562,7 @@ func genHonest(r *Rng) (*vsCase, []*vsSpend) {
 		segwit := sp.algo == 1
 		form := 0
 		if segwit {
-			form = r.Pick(1, 1, 2, 2)
+			form = r.Pick(0, 1, 1, 2, 2)
 		}
 		nout := r.Intn(3) + 1
 		at := r.Intn(nout)
@@ -598,6 +603,13 @@ func genHonest(r *Rng) (*vsCase, []*vsSpend) {
 			ht := vsHashTypes[r.Intn(len(vsHashTypes))]
 			d, _ := vsDigest(stx, sp.algo, k, sp.code, sp.amount, ht)
 			c.ins[k].sigs = append(c.ins[k].sigs, &vsSig{present: true, pub: sp.keys[j].pub, sig: signDigest(sp.keys[j], d, ht)})
+			// the declared sighash type of the input: absent, the one used, or another one
+			switch r.Intn(4) {
+			case 0:
+				c.ins[k].sighash = uint32(ht)
+			case 1:
+				c.ins[k].sighash = uint32(vsHashTypes[r.Intn(len(vsHashTypes))])
+			}
 		}
 	}
 	return c, spends
@@ -706,7 +718,20 @@ func corrupt(r *Rng, c *vsCase, spends []*vsSpend) (name string) {
 			c.tx.Inputs[k].Hash = append([]byte{}, h...)
 		}
 	}
-	switch r.Intn(34) {
+	switch r.Intn(36) {
+	case 34, 35:
+		// signature made for the input's declared sighash type, but carrying another hash-type byte
+		j := r.Intn(len(in.sigs))
+		sg := in.sigs[j]
+		ht := sg.sig[len(sg.sig)-1]
+		decl := vsHashTypes[r.Intn(len(vsHashTypes))]
+		for decl == ht {
+			decl = vsHashTypes[r.Intn(len(vsHashTypes))]
+		}
+		in.sighash = uint32(decl)
+		c.resign(k, j, sp.keys[j], sp.algo, sp.code, sp.amount, decl)
+		sg.sig[len(sg.sig)-1] = ht
+		return "signed-for-declared-type-other-byte"
 	case 0:
 		s := pickSig()
 		s.sig = flipBit(s.sig, r)
